@@ -84,6 +84,7 @@ def run_cases(mod, ctx, driver_ok):
     st = dict(evaluations=0, distinct=set(), tags={}, mismatches=[], specfails=[], samples=[], model_lines=0)
     batch = []
     MP = getattr(mod, "MODEL_POST", None)
+    EQ = getattr(mod, "outputs_match", None) or outputs_equal
 
     def flush():
         if not batch:
@@ -105,7 +106,7 @@ def run_cases(mod, ctx, driver_ok):
                 st["model_lines"] += 1
             ok, exp = check_spec(mod, c, r)
             rec = None
-            if m is not None and not outputs_equal(r, m):
+            if m is not None and not EQ(r, m):
                 rec = dict(kind="correspondence", op=c.get("op"), real=c["real"], got=r, model=m, expected=exp,
                            spec_ok=ok, tag=tag, info=c.get("info"))
                 st["mismatches"].append(rec)
